@@ -24,6 +24,7 @@ func init() {
 			ruleSetOps(r)
 			ruleStepBuffers(r)
 			ruleKeyedStores(r)
+			ruleIndexLoopDeletion(r, []string{metricPkg, enginePkg})
 		},
 	})
 }
